@@ -349,10 +349,67 @@ pub fn run(tier: Tier) -> Report {
         rep.add_transitions(2 * total as u64);
         rep.add_states(total as u64);
         rep.extra("block_sequences_in_one_plane", json!(total));
+        // planes whose width / height are not multiples of eight: the last column and row of blocks
+        // are clipped; every sample inside the plane must equal the block transformed alone, and
+        // nothing may be written elsewhere (the plane is followed by guard bytes)
+        let mut dims: Vec<(usize, usize)> = vec![];
+        let small = if tier.thorough() { 40 } else { 26 };
+        for w in 1..=small {
+            for h in 1..=small {
+                dims.push((w, h));
+            }
+        }
+        for w in [63usize, 64, 65, 127, 128, 129, 255, 256, 257, 511, 512, 513, 1023, 1024, 1025, 2047, 2048, 2049, 4095, 4096, 4097, 32767, 32768] {
+            for h in [1usize, 7, 8, 9, 17] {
+                dims.push((w, h));
+                dims.push((h, w));
+            }
+        }
+        dims.par_iter().for_each(|&(w, h)| {
+            for rot in 0..6usize {
+                // block grid: just covering the plane, or macroblock-aligned as for a luma plane
+                // (then the last block column / row may lie entirely outside)
+                let (cols, rows) = if rot < 3 { (w.div_ceil(8), h.div_ceil(8)) } else { (2 * w.div_ceil(16), 2 * h.div_ceil(16)) };
+                let idx: Vec<usize> = (0..cols * rows).map(|k| (k * 4 + rot * 5 + k / cols) % n).collect();
+                let mut blocks: Vec<DecodedDctBlock> = idx.iter().map(|i| letters[*i].1).collect();
+                let guard = 64usize;
+                let mut plane = vec![100u8; w * h];
+                plane.extend(std::iter::repeat(0xEE).take(guard));
+                let r = catch(|| idct_channel(&mut blocks, &mut plane[..w * h], cols, w));
+                if let Err(p) = r {
+                    rep.violation(&panic_sig(&p), format!("{w}x{h} plane ({cols}x{rows} blocks): {p}"), json!({"kind": "idct-plane-geometry", "w": w, "h": h, "rotation": rot}));
+                    return;
+                }
+                if plane[w * h..].iter().any(|b| *b != 0xEE) {
+                    rep.violation("C10/write-beyond-plane", format!("{w}x{h} plane: bytes behind the plane were modified"), json!({"kind": "idct-plane-geometry", "w": w, "h": h, "rotation": rot}));
+                }
+                let mut bad = None;
+                'scan: for y in 0..h {
+                    for x in 0..w {
+                        let k = (y / 8) * cols + x / 8;
+                        if plane[y * w + x] != alone[idx[k]][(y % 8) * 8 + x % 8] {
+                            bad = Some((x, y, k));
+                            break 'scan;
+                        }
+                    }
+                }
+                if let Some((x, y, k)) = bad {
+                    rep.violation_lazy("C10/clipped-plane-sample", || {
+                        (
+                            format!("{w}x{h} plane ({cols}x{rows} blocks, letters rotated by {rot}): sample ({x},{y}) of block {k} ({}) is {}, the block transformed alone gives {}", letters[idx[k]].0, plane[y * w + x], alone[idx[k]][(y % 8) * 8 + x % 8]),
+                            json!({"kind": "idct-plane-geometry", "w": w, "h": h, "rotation": rot}),
+                        )
+                    });
+                }
+            }
+        });
+        rep.add_transitions(6 * dims.len() as u64);
+        rep.add_states(dims.len() as u64);
+        rep.extra("clipped_plane_geometries", json!(dims.len()));
     }
     rep.extra("off_by_one_outside_rounding_band_informational", json!(info.load(std::sync::atomic::Ordering::Relaxed)));
     rep.set_rule(&format!(
-        "Annex A procedure verbatim for generator seeds {:?}: 10000 blocks for each of (-256..255), (-5..5), (-300..300) and their negations, forward DCT in f64, rounded, clipped, through idct_channel (hook) as Full blocks, against the f64 inverse; all 4096 Dc blocks; Horiz/Vert: all single-entry vectors over -2048..2047, all two-entry vectors over a 15-value boundary set, dense vectors from the same generator; all sequences of 4 (thorough 5) blocks over a 9-letter block alphabet in one plane, in two layouts, each block compared with the same block transformed alone; each block is transformed over prediction 0 and 255 to observe residuals -255..255 (-256 is observable only as <= -255); non-trivial = sparse-shape blocks",
+        "Annex A procedure verbatim for generator seeds {:?}: 10000 blocks for each of (-256..255), (-5..5), (-300..300) and their negations, forward DCT in f64, rounded, clipped, through idct_channel (hook) as Full blocks, against the f64 inverse; all 4096 Dc blocks; Horiz/Vert: all single-entry vectors over -2048..2047, all two-entry vectors over a 15-value boundary set, dense vectors from the same generator; all sequences of 4 (thorough 5) blocks over a 9-letter block alphabet in one plane, in two layouts, each block compared with the same block transformed alone; planes of every size 1..26 (thorough 40) squared and around every power of two to 32768 whose last block column / row is clipped, every sample compared with the block transformed alone; each block is transformed over prediction 0 and 255 to observe residuals -255..255 (-256 is observable only as <= -255); non-trivial = sparse-shape blocks",
         seeds
     ));
     rep.sample(json!({"annex_a": "seed 1, range -256..255, block 0: 64 generated samples -> fdct -> Full block"}));
